@@ -39,8 +39,8 @@ let parse_vis (ev : string) : vis =
   | k ->
     let t, f, lost = (match String.split_on_char ':' rest with
                 | [a; b] -> nat_of_int (int_of_string a), b = "1", b = "2" | _ -> failwith "ev") in
-    (* U<t>:2 = the index PUT took effect and was answered with an error (EPutLost) *)
-    (match k with 'P' -> VP (t, f) | 'U' -> if lost then VL t else VU (t, f) | 'D' -> VD (t, f) | _ -> failwith "ev")
+    (* U<t>:2 / D<t>:2 = the index PUT / DELETE took effect and was answered with an error (EPutLost / EDelLost) *)
+    (match k with 'P' -> VP (t, f) | 'U' -> if lost then VL t else VU (t, f) | 'D' -> if lost then VK t else VD (t, f) | _ -> failwith "ev")
 
 let show_results rs =
   String.concat "," (List.mapi (fun t r ->
